@@ -15,12 +15,14 @@ Open Scope Z_scope.
 (* ---- messages ---- *)
 (* mid: harness identity (0 for messages the bot makes itself); mcmd/mkey: the
    command and the content (prefix,args) class: IrcMsg.__eq__ compares both;
-   mact/mdt: what the concrete filter chain of the harness does to it. *)
-Record msg := Msg { mid : Z; mcmd : str; mkey : Z; mact : N; mdt : Z }.
+   mact/mdt: what the concrete filter chain of the harness does to it;
+   menc: str(msg) can be encoded as UTF-8 (false: a lone surrogate somewhere):
+   the new _truncateMsg encodes the line and raises UnicodeEncodeError otherwise. *)
+Record msg := Msg { mid : Z; mcmd : str; mkey : Z; mact : N; mdt : Z; menc : bool }.
 Definition entry : Type := (nat * msg)%type.
 
 Definition msg_eqb (a b : msg) : bool :=
-  seq_eqb (mcmd a) (mcmd b) && Z.eqb (mkey a) (mkey b).
+  seq_eqb (mcmd a) (mcmd b) && Z.eqb (mkey a) (mkey b) && Bool.eqb (menc a) (menc b).
 
 Inductive cls := High | Normal | Low.
 Definition classify_with (hi lo : list str) (c : str) : cls :=
@@ -35,7 +37,7 @@ Definition c_CAP : str := [67; 65; 80]%N.
 Definition c_PASS : str := [80; 65; 83; 83]%N.
 Definition c_NICK : str := [78; 73; 67; 75]%N.
 Definition c_USER : str := [85; 83; 69; 82]%N.
-Definition internal (c : str) (k : Z) : msg := Msg 0 c k 0%N 0.
+Definition internal (c : str) (k : Z) : msg := Msg 0 c k 0%N 0 true.
 
 (* ---- configuration (conf.supybot.protocols.irc.*, networks.<n>.password) ---- *)
 Record cfg := Cfg { c_throttle : Z; c_join : Z; c_dup : bool; c_ping : bool;
@@ -76,6 +78,8 @@ Inductive event :=
 | Took (f : src) (e : entry) (now : Z)     (* removed from its queue by takeMsg at clock reading now *)
 | Dropped (e : entry)                      (* an outFilter returned None for it *)
 | Delivered (e : entry) (out : msg) (now : Z)   (* takeMsg returned out (e after the filters) *)
+| Unsendable (e : entry) (out : msg)       (* out has no wire form: _truncateMsg raised UnicodeEncodeError, the
+                                              firewall around takeMsg swallowed it, takeMsg returned None *)
 | Flushed (l : list entry)                 (* reset() cleared the queues *)
 | Reconnect                                (* driver.reconnect() *)
 | DriverDie.                               (* driver.die() *)
@@ -119,6 +123,8 @@ Definition dequeue (c : cfg) (now : Z) (s : st) : st * option entry :=
 
 Definition queue_nonempty (s : st) : bool :=
   match qpending s with [] => false | _ => true end.
+Definition fast_nonempty (s : st) : bool :=
+  match fast s with [] => false | _ => true end.
 
 (* ---- Irc.queueMsg / sendMsg ---- *)
 Definition queueMsg (c : cfg) (s : st) (m : msg) : st * list event :=
@@ -138,19 +144,29 @@ Section Take.
 Variable c : cfg.
 Variable filt : msg -> fres.
 
-(* the tail of takeMsg when msg is None *)
+(* the tail of takeMsg when msg is None:
+   elif self.zombie and not self.fastqueue and not self.queue: driver.die() *)
 Definition idle (s : st) (evs : list event) : st * list event :=
-  if zombie s then (set_dead s true, evs ++ [DriverDie]) else (s, evs).
+  if zombie s && negb (fast_nonempty s) && negb (queue_nonempty s)
+  then (set_dead s true, evs ++ [DriverDie]) else (s, evs).
+
+(* what becomes of an entry removed from its queue: the filter chain, then
+   _truncateMsg (which needs the UTF-8 form of the line).  An exception there
+   leaves takeMsg through the firewall: None is returned at once, no zombie
+   branch, no recursion; lastTake/lastJoin keep the values dequeue gave them. *)
+Definition fin (e : entry) (out : msg) (now : Z) : event :=
+  if menc out then Delivered e out now else Unsendable e out.
+Definition finish (s1 : st) (f : src) (e : entry) (now : Z) : st * list event * option Z :=
+  match filt (snd e) with
+  | FPass => (s1, [Took f e now; fin e (snd e) now], None)
+  | FRewrite out => (s1, [Took f e now; fin e out now], None)
+  | FDrop dt => (s1, [Took f e now; Dropped e], Some dt)
+  end.
 
 (* one activation of takeMsg: returns the state, the events and, when a filter
    dropped the message, the delay until the recursive activation reads the clock *)
 Definition take_body (s : st) (now : Z) : st * list event * option Z :=
-  let after (s1 : st) (f : src) (e : entry) :=
-    match filt (snd e) with
-    | FPass => (s1, [Took f e now; Delivered e (snd e) now], None)
-    | FRewrite out => (s1, [Took f e now; Delivered e out now], None)
-    | FDrop dt => (s1, [Took f e now; Dropped e], Some dt)
-    end in
+  let after (s1 : st) (f : src) (e : entry) := finish s1 f e now in
   match fast s with
   | e :: r => after (set_fast s r) FromFast e
   | [] =>
@@ -241,37 +257,14 @@ End Take.
 Definition filt_of (m : msg) : fres :=
   match mact m with
   | 0%N => FPass
-  | 1%N => FRewrite (Msg (mid m) (mcmd m) (mkey m + 1000) 0%N 0)
+  | 1%N => FRewrite (Msg (mid m) (mcmd m) (mkey m + 1000) 0%N 0 true)
   | _ => FDrop (mdt m)
   end.
 
-(* ---- the (executable) domain of the drain clause, see Spec.v ---- *)
-Definition op_ok (s : st) (o : op) : bool :=
-  match o with
-  | Take now => (lastTake s <? now) && (lastJoin s <=? now)
-  | Die => afterConnect s
-  | _ => true
-  end.
-
-Fixpoint sched_ok (c : cfg) (filt : msg -> fres) (s : st) (ops : list op) : bool :=
-  match ops with
-  | [] => true
-  | o :: r => (dead s || op_ok s o) && sched_ok c filt (fst (step c filt s o)) r
-  end.
-
-Definition drain_dom (c : cfg) (filt : msg -> fres) (ops : list op) : bool :=
-  (c_throttle c <=? 0) && (c_join c <=? 0) && sched_ok c filt st0 ops.
-
-
-(* the concrete chain lets the clock advance whenever it drops *)
-Definition msg_pos (m : msg) : bool :=
-  match filt_of m with FDrop dt => 0 <? dt | _ => true end.
-Definition msgs_pos (ops : list op) : bool :=
-  forallb (fun o => match o with Queue m => msg_pos m | Send m => msg_pos m | _ => true end) ops.
-
 (* ---- wire ---- *)
 Definition gMsg (v : value) : msg :=
-  Msg (gZ (nth_v 0 v)) (gS (nth_v 1 v)) (gZ (nth_v 2 v)) (gN (nth_v 3 v)) (gZ (nth_v 4 v)).
+  Msg (gZ (nth_v 0 v)) (gS (nth_v 1 v)) (gZ (nth_v 2 v)) (gN (nth_v 3 v)) (gZ (nth_v 4 v))
+      (negb (gB (nth_v 5 v))).   (* 6th field: 1 = unencodable; absent = encodable *)
 Definition gCfg (v : value) : cfg :=
   Cfg (gZ (nth_v 0 v)) (gZ (nth_v 1 v)) (gB (nth_v 2 v)) (gB (nth_v 3 v)) (gZ (nth_v 4 v)) (gB (nth_v 5 v)).
 Definition gOp (v : value) : op :=
@@ -293,6 +286,7 @@ Definition vEvent (ev : event) : value :=
   | Took f e now => L [I 2; I (match f with FromFast => 0 | FromQueue => 1 end); vE e; I now]
   | Dropped e => L [I 3; vE e]
   | Delivered e out now => L [I 4; vE e; vS (mcmd out); I (mkey out); I now]
+  | Unsendable e out => L [I 8; vE e]
   | Flushed l => L [I 5; L (map vE l)]
   | Reconnect => L [I 6]
   | DriverDie => L [I 7]
@@ -302,7 +296,7 @@ Definition vSt (s : st) : value :=
      I (lastTake s); I (lastJoin s); I (lastping s);
      vB (zombie s); vB (afterConnect s); vB (outPing s); vB (dead s)].
 
-(* run: (0 (cfg ops)) -> per op (events, state after);  (1 (cfg ops)) -> is the history in the drain domain *)
+(* run: (0 (cfg ops)) -> per op (events, state after) *)
 Definition run (v : value) : value :=
   let payload := nth_v 1 v in
   match gN (nth_v 0 v) with
@@ -310,9 +304,5 @@ Definition run (v : value) : value :=
       let c := gCfg (nth_v 0 payload) in
       let ops := map gOp (gL (nth_v 1 payload)) in
       L (map (fun r => L [L (map vEvent (fst r)); vSt (snd r)]) (run_obs c filt_of st0 ops))
-  | 1%N =>
-      let c := gCfg (nth_v 0 payload) in
-      let ops := map gOp (gL (nth_v 1 payload)) in
-      vB (drain_dom c filt_of ops && msgs_pos ops)
   | _ => L []
   end.
